@@ -801,6 +801,25 @@ class Sut(object):
             if pa != epa:
                 out.append(D(["C13"], "parents", gid=gid, prefixes=ps, got=sorted(pa, key=repr), expected=sorted(epa)))
                 return
+        # Latent damage made observable: a stored stem-prefix X marked "no webentity below" although a
+        # webentity prefix D lies below it hides D from any webentity attached at or above X.  When
+        # none is attached yet, attach a fresh one at X (a legitimate continuation of the history) and ask.
+        if dec is not None and not dec.errors:
+            for dlru, dg in sorted(m.we.items()):
+                for x in prefixes_of(dlru)[:-1]:
+                    if dec.nochild.get(x) and x not in m.we:
+                        self.stats["C13_latent_marks_probed"] += 1
+                        ds = self.apply({"op": "create", "prefixes": [x]})
+                        if ds or self.dead:
+                            out.extend(ds)
+                            return
+                        gid = m.we[x]
+                        ch = {self.tr(v) for v in t.get_webentity_child_webentities(self.idmap[gid], [x])}
+                        ech = m.children(gid)
+                        if ch != ech:
+                            out.append(D(["C13"], "children-after-attaching-at-marked-node", node=x, hidden=dlru,
+                                         got=sorted(ch, key=repr), expected=sorted(ech)))
+                        return
 
     # -- C19
     def audit_C19(self, rng, out, dec, owner, byw):
